@@ -9,6 +9,7 @@ import LW.Spec.Mac
 import LW.Spec.Frame
 import LW.Spec.Crypto
 import LW.Spec.Addr
+import LW.Spec.BandChecks
 import LW.Known
 namespace LW.Driver
 open LW LW.Canon
@@ -76,6 +77,153 @@ def cmdsValid (reg : Registry) (up : Bool) (is : List Item) : Bool :=
       | some p, some e => e.kind == p.kind && (Spec.enc p).isSome
       | _, _ => false)
     | _ => false
+
+
+/-- split "k=v" tokens of a `state` result -/
+def kvOf (toks : List String) (k : String) : Option String :=
+  (toks.find? (·.startsWith (k ++ "="))).map (fun t => sdrop t (k.length + 1))
+
+def sortedInts (l : List Int) : List Int := sortInts l
+
+/-- every AddChannel of the history has specification-valid arguments: a frequency that is a multiple of 100 Hz (inside
+2.4–2.4835 GHz for ISM2400, below 2^24·100 Hz elsewhere) and a data-rate range inside 0..15 -/
+def histAddsValid (ism : Bool) (hist : String) : Bool :=
+  hist == "-" || (hist.splitOn ",").all fun t =>
+    match t.splitOn ":" with
+    | ["a", f, mn, mx] =>
+      (match f.toNat?, mn.toInt?, mx.toInt? with
+       | some f, some mn, some mx =>
+         f % 100 == 0 && (if ism then (2400000000 ≤ f && f ≤ 2483500000) else f / 100 < 16777216) && 0 ≤ mn && mn ≤ mx && mx ≤ 15
+       | _, _, _ => false)
+    | _ => true
+
+def bandVerdicts (args : List String) (res : Option (List String)) : List (String × String) :=
+  match args with
+  | key :: rep :: dw :: hist :: q :: rest =>
+    match rep.toNat?, dw.toNat? with
+    | some rep, some dw =>
+      match findCfg key (rep != 0) dw with
+      | none => []
+      | some cfg =>
+        match applyHistory cfg.init hist, res with
+        | some (b, _), some (_h :: out) =>
+          let ai (i : Nat) : Option Int := (rest[i]?).bind String.toInt?
+          match q with
+          | "rx1dr" =>
+            (match ai 0, ai 1, out with
+             | some dr, some off, [r] =>
+               let rule := Spec.rx1DRRule cfg.family cfg.dwell dr off
+               if r == "ERR" then
+                 (match rule with | some _ => if Spec.definedUp cfg dr then [("C12", "rx1dr-rejects-pair-the-region-defines")] else [] | none => [])
+               else match r.toInt? with
+                 | some v =>
+                   (if Spec.definedDown cfg v then [] else [("C12", "rx1dr-result-not-a-defined-downlink-datarate"), ("C13", "rx1dr-result-not-defined")]) ++
+                   (match rule with | some x => if x == v then [] else [("C12", "rx1dr-differs-from-region-rule")] | none => [])
+                 | none => []
+             | _, _, _ => [])
+          | "rx1chan" =>
+            (match ai 0, out with
+             | some i, [r] => if i ≥ 0 && i < b.up.length then (if r.toInt? == some (Spec.rx1ChannelRule cfg.family i) then [] else [("C12", "rx1-channel-differs-from-region-rule")]) else []
+             | _, _ => [])
+          | "rx1freq" =>
+            (match (rest[0]?).bind String.toNat?, out with
+             | some f, [r] =>
+               (match b.up.findIdx? (fun c => c.freq == f && !c.custom) with
+                | some i =>
+                  let k := Spec.rx1ChannelRule cfg.family i
+                  let want := match Spec.downlinkPlanFreq cfg.family k.toNat with | some pf => pf | none => f
+                  if r.toNat? == some want then [] else [("C12", "rx1-frequency-differs-from-region-rule")]
+                | none => [])
+             | _, _ => [])
+          | "ping" =>
+            (match (rest[0]?).bind String.toNat?, ai 1, out with
+             | some a, some t, [r] =>
+               if t < 0 then [] else
+               let want : Option Nat := match Spec.pingSlotFixed cfg.name with
+                 | some f => some f
+                 | none => match cfg.family with
+                   | .cn470 => some (Spec.cn470PingFreq (Spec.pingSlotChannel a t).toNat)
+                   | _ => Spec.downlinkPlanFreq cfg.family (Spec.pingSlotChannel a t).toNat
+               if r.toNat? == want then [] else [("C12", "ping-slot-frequency-differs-from-region-rule")]
+             | _, _, _ => [])
+          | "maxpl" =>
+            (match out with
+             | [m, n] =>
+               (match m.toInt?, n.toInt? with
+                | some m, some n => if Spec.isNA m n || (m == n + 8 && n ≤ 242 && n ≥ 0) then [] else [("C13", "max-payload-size-not-N-plus-8-or-N-above-242")]
+                | _, _ => [])
+             | _ => [])
+          | "planapply" =>
+            (match (rest[0]?).bind parseIntList, out with
+             | some dev, [plans, enc, applied] =>
+               let n : Int := b.up.length
+               if !(dev.all (fun c => c ≥ 0 && c < n)) || dev.eraseDups.length != dev.length then [] else
+               if b.up.length > 128 then [] else
+               let target := b.enabledIdx.filter fun c => (match b.up[c.toNat]? with | some ch => !ch.custom || dev.contains c | none => false)
+               let np := if plans == "-" then 0 else (plans.splitOn ",").length
+               (if applied == intList (sortedInts target) then [] else [("C14", "applied-payloads-do-not-reach-the-network-channel-set")]) ++
+               (if enc == "1" then [] else [("C14", "generated-payload-not-encodable")]) ++
+               (if np ≤ (b.up.length + 15) / 16 + 1 then [] else [("C14", "more-payloads-than-blocks-plus-one")]) ++
+               (if sortedInts dev == sortedInts target && np != 0 then [("C14", "payloads-produced-although-device-matches")] else [])
+             | _, _ => [])
+          | "state" =>
+            (match kvOf out "all", kvOf out "std", kvOf out "cus", kvOf out "en", kvOf out "dis", kvOf out "up" with
+             | some all, some std, some cus, some en, some dis, some up =>
+               (match parseIntList all, parseIntList std, parseIntList cus, parseIntList en, parseIntList dis with
+                | some all, some std, some cus, some en, some dis =>
+                  let part (x y : List Int) := sortedInts (x ++ y) == all && x.all (fun c => !y.contains c)
+                  (if part en dis then [] else [("C15", "enabled-disabled-do-not-partition-channels")]) ++
+                  (if part std cus then [] else [("C15", "standard-custom-do-not-partition-channels")]) ++
+                  -- standard channels are never altered: the initial prefix keeps frequency / DR range / custom flag
+                  (let chans := if up == "-" then [] else up.splitOn ";"
+                   let init := cfg.up.map fun c => s!"{c.freq}:{c.minDR}:{c.maxDR}"
+                   if (chans.take init.length).map (fun t => ":".intercalate ((t.splitOn ":").take 3)) == init &&
+                      (chans.take init.length).all (fun t => (t.splitOn ":")[4]? == some "0")
+                   then [] else [("C15", "standard-channel-altered")])
+                | _, _, _, _, _ => [])
+             | _, _, _, _, _, _ => [])
+          | "idx" =>
+            (match (rest[0]?).bind String.toNat?, ai 1, out with
+             | some f, some d, [r] =>
+               (match r.toInt? with
+                | some i => (match b.up[i.toNat]? with
+                  | some ch => if i ≥ 0 && ch.freq == f && ch.custom == (d == 0) then [] else [("C15", "lookup-by-frequency-returns-non-matching-channel")]
+                  | none => [("C15", "lookup-by-frequency-returns-non-matching-channel")])
+                | none => [])
+             | _, _, _ => [])
+          | "idxdr" =>
+            (match (rest[0]?).bind String.toNat?, ai 1, out with
+             | some f, some d, [r] =>
+               (match r.toInt? with
+                | some i => (match b.up[i.toNat]? with
+                  | some ch => if i ≥ 0 && ch.freq == f && ch.minDR ≤ d && d ≤ ch.maxDR then [] else [("C15", "lookup-by-frequency-dr-returns-non-matching-channel")]
+                  | none => [("C15", "lookup-by-frequency-dr-returns-non-matching-channel")])
+                | none => [])
+             | _, _, _ => [])
+          | "cflist" =>
+            (match out with
+             | [tok] =>
+               (match parseCFList tok with
+                | some (some l) =>
+                  (match l.payload with
+                   | .channels fs =>
+                     let custom := (b.up.filter (·.custom)).map (fun c => BitVec.ofNat 32 c.freq)
+                     let nz := fs.filter (· != 0)
+                     (if nz.all (custom.contains ·) then [] else [("C15", "cflist-contains-a-non-custom-channel")]) ++
+                     (if !histAddsValid (cfg.family == .ism2400) hist then [] else
+                      match ({ payload := .channels fs, typ := l.typ } : CFList).enc with
+                      | .ok bs => (match CFList.dec bs with | .ok l' => if l' == l then [] else [("C15", "cflist-not-decodable-to-same-values")] | _ => [("C15", "cflist-not-decodable-to-same-values")])
+                      | _ => if cfg.family == .ism2400 then [("C15", "KNOWN:c15-ism2400-frequencies-not-encodable")] else [("C15", "cflist-not-encodable-by-mac-layer")])
+                   | .masks ms =>
+                     let want := (chunks16 (b.up.length + 1) b.up).map maskOf
+                     (if ms == (if want.isEmpty then [0] else want) then [] else [("C15", "cflist-masks-differ-from-enabled-channels")]) ++
+                     (if ms.length ≤ 6 then [] else [("C15", "cflist-not-encodable-by-mac-layer")]))
+                | _ => [])
+             | _ => [])
+          | _ => []
+        | _, _ => []
+    | _, _ => []
+  | _ => []
 
 /-- all clause verdicts of an op, as (property, verdict) pairs; only those of the property under check are reported -/
 def verdicts (st : DState) (op : String) (args : List String) (goRes : String) : List (String × String) :=
@@ -374,11 +522,16 @@ def verdicts (st : DState) (op : String) (args : List String) (goRes : String) :
       | some _, none => [("C11", "accepts-malformed-identifier")]
       | none, some _ => [("C11", "rejects-wellformed-identifier")]
       | _, _ => []
+    | "bq", toks => bandVerdicts toks res
     | _, _ => []
 
 def verdict (prop : String) (st : DState) (op : String) (args : List String) (goRes : String) : String :=
-  match (verdicts st op args goRes).find? (fun (p, v) => (p == prop || p == "*") && v != "ok") with
+  let vs := (verdicts st op args goRes).filter (fun (p, v) => (p == prop || p == "*") && v != "ok")
+  -- a genuine violation takes precedence over a known finding
+  match vs.find? (fun (_, v) => !v.startsWith "KNOWN:") with
   | some (_, v) => viol prop v
-  | none => "ok"
+  | none => match vs with
+    | (_, v) :: _ => v
+    | [] => "ok"
 
 end LW.Driver
